@@ -185,14 +185,24 @@ def elem_of(I, st, itv):
                 _, objid, path = a[0]
                 at.add((("ref", objid, tuple(path) + ("[*]",)), NOOPS))
             return Val(frozenset(at))
+        if "[*]" not in v.fields and (any(k.startswith("#v:") and "Option" in k for k in v.fields) or any(not k.startswith("#") for k in v.fields)):
+            # not a collection: an Option used as an IntoIterator (add_messages(Some(msg)), extend(opt), chain(opt)) yields its payload
+            return without_tags(v)
         return vfield(v, "[*]")
     return vfield(v, "[*]")
+
+
+_NONEMPTY = None      # assumption of the running policy: collections whose origin matches this regex are not empty
 
 
 def mk_iter(elem, src=None):
     f = {"[*]": elem, "#iter": V("Const(iter)")}
     if src is not None and "#nonempty" in src.fields:
         f["#first"] = V("Const(first)")      # the first next() of this iterator cannot be None
+    if _NONEMPTY is not None and src is not None:
+        os_ = {a[0] for a in src.atoms if isinstance(a[0], str)} | {a[0] for a in elem.atoms if isinstance(a[0], str)}
+        if any(re.search(_NONEMPTY, o) for o in os_):
+            f["#first"] = V("Const(first)")
     if src is not None and "#uniq" in src.fields:
         f["#uniq"] = src.fields["#uniq"]     # elements of a de-duplicated collection stay distinct
     return Val(frozenset(), f)
@@ -220,6 +230,15 @@ def external(I, st, frame, t, name, args, ev):
     tys = tyshort(self_ty)
     a0 = args[0] if args else EMPTY
     D = lambda v: I.deref_full(st, v)   # noqa: E731
+
+    # ---------------------------------------------------------------- bool::then / then_some, slice windows / chunks
+    if re.search(r"bool::<impl bool>::then$|<impl bool>::then$", name) and len(args) == 2:
+        r = I.invoke(st, frame, args[1], [], (frame.body.id, ev.bb if ev else -3, 6))
+        return without_tags(r) if r is not None else EMPTY       # Some(f()) or None: the payload is transparent
+    if re.search(r"<impl bool>::then_some$", name) and len(args) == 2:
+        return without_tags(D(args[1]))
+    if re.search(r"slice::<impl \[T\]>::(windows|chunks|chunks_exact|rchunks)$", name) and args:
+        return mk_iter(Val(frozenset(), {"[*]": elem_of(I, st, a0)}))
 
     # ---------------------------------------------------------------- diverging
     if method in DIVERGE and ("panicking" in name or "process" in name or "slice" in name or "option" in name
@@ -540,10 +559,16 @@ def iterators(I, st, frame, t, name, self_ty, tys, trait, method, args, ev):
         if method == "chain" and len(args) > 1:
             return mk_iter(vjoin(vfield(itv, "[*]"), elem_of(I, st, args[1])))
         return itv if "[*]" in itv.fields else mk_iter(vfield(itv, "[*]"))
+    def keep_first(it):      # element-preserving adaptors keep "the first next() is Some"
+        if "#first" in itv.fields and "#first" not in it.fields:
+            return Val(it.atoms, dict(it.fields, **{"#first": itv.fields["#first"]}))
+        return it
     if method in ("cloned", "copied"):
-        return mk_iter(D(vfield(itv, "[*]")))
+        return keep_first(mk_iter(D(vfield(itv, "[*]"))))
+    if method == "flatten":
+        return mk_iter(without_tags(elem_of(I, st, vfield(itv, "[*]"))))
     if method == "enumerate":
-        return mk_iter(Val(frozenset(), {"0": V("Const(index)"), "1": vfield(itv, "[*]")}))
+        return keep_first(mk_iter(Val(frozenset(), {"0": V("Const(index)"), "1": vfield(itv, "[*]")})))
     if method == "zip" and len(args) == 2:
         return mk_iter(Val(frozenset(), {"0": vfield(itv, "[*]"), "1": elem_of(I, st, args[1])}))
     if method in ("map", "filter_map", "flat_map", "map_while", "scan"):
@@ -553,7 +578,7 @@ def iterators(I, st, frame, t, name, self_ty, tys, trait, method, args, ev):
             r = EMPTY
         if method == "flat_map":
             r = elem_of(I, st, r)
-        return mk_iter(without_tags(r))
+        return keep_first(mk_iter(without_tags(r))) if method == "map" else mk_iter(without_tags(r))
     if method in ("any", "all"):
         el = vfield(itv, "[*]")
         r = I.invoke(st, frame, args[1], [el], site)
